@@ -431,14 +431,27 @@ func (c *Ctx) ruleStrip(fn *ssa.Function, want map[string]bool) {
 	sf := sfr.fn
 	bufOK, bufDet := false, "the buffer handed to the descriptor decoder is not a local buffer filled by this call's Marshal"
 	bufObj := dv.objectOf(strip.Call.Args[descDec[ir.CallID(strip)]], sfr)
-	if a, isA := bufObj.v.(*ssa.Alloc); isA && ir.NamedTypeID(a.Type()) == "bytes.Buffer" {
+	// the decoder may be given a second buffer built over (a copy of) the marshalled bytes
+	marshalObj := bufObj
+	if nb, isNB := bufObj.v.(*ssa.Call); isNB && (ir.CallID(nb) == "bytes.NewBuffer" || ir.CallID(nb) == "bytes.NewReader") {
+		for v := range dv.sliceDeep(nb.Call.Args[0], bufObj.fr) {
+			if bc, isB := v.(*ssa.Call); isB && ir.CallID(bc) == "bytes.Buffer.Bytes" {
+				for _, di := range dv.order {
+					if di.i == ssa.Instruction(bc) {
+						marshalObj = dv.objectOf(bc.Call.Args[0], di.fr)
+					}
+				}
+			}
+		}
+	}
+	if a, isA := marshalObj.v.(*ssa.Alloc); isA && ir.NamedTypeID(a.Type()) == "bytes.Buffer" {
 		marshalBefore := false
 		for _, di := range dv.order {
 			call, ok := di.i.(ssa.CallInstruction)
 			if !ok || !call.Common().IsInvoke() || call.Common().Method.Name() != "Marshal" || len(call.Common().Args) != 1 {
 				continue
 			}
-			if !dv.objectOf(call.Common().Args[0], di.fr).same(bufObj) {
+			if !dv.objectOf(call.Common().Args[0], di.fr).same(marshalObj) {
 				continue
 			}
 			if di.fr == sfr && (call.Block() == strip.Block() && precedes(call, strip) || call.Block() != strip.Block() && call.Block().Dominates(strip.Block())) {
